@@ -28,6 +28,7 @@ STATIC = ["C13_" + n for n in (
     "reparam_integral")]
 
 KNOWN_KEY_DIV = "C13:flux_across_surface_boundary:divergence-not-evaluated-on-surface"
+KNOWN_KEY_SUBS = "C13:subs_with_point:sequential-substitution-of-base-scalars"
 
 PREAMBLE = """From Coq Require Import ZArith Reals List Lra Lia Field.
 From VP Require Import Model.DiffAlg Model.Ops Model.Forms Proofs.OpsProofs.
@@ -350,9 +351,16 @@ def run_case(case):
     fld = lam_field(cs, F)
     detail = {}
     if kind == "stokes":         # closed boundary curve(s) vs surface
-        surf = parse(case["surface"])
-        (ua, ub), (va, vb) = [parse(l) for l in case["limits"]]
-        rhs = A.circulation_along_surface_boundary(fld, surf, (U, ua, ub), (V, va, vb))
+        if case.get("params") == "base_scalars":     # non-parametrised: the base scalars x, y are the parameters
+            bx, by = cs.coord_system.base_scalars()[0], cs.coord_system.base_scalars()[1]
+            loc = {"x": bx, "y": by}
+            surf = [sympy.sympify(e, locals=loc) for e in case["surface"]]
+            (ua, ub), (va, vb) = [[sympy.sympify(e, locals=loc) for e in l] for l in case["limits"]]
+            rhs = A.circulation_along_surface_boundary(fld, surf, (bx, ua, ub), (by, va, vb))
+        else:
+            surf = parse(case["surface"])
+            (ua, ub), (va, vb) = [parse(l) for l in case["limits"]]
+            rhs = A.circulation_along_surface_boundary(fld, surf, (U, ua, ub), (V, va, vb))
         lhs = 0
         for seg in case["boundary"]:
             tr = parse(seg["trajectory"])
@@ -461,7 +469,7 @@ def gen_cases(rng, tier_quick, only=None):
         if only is None or c["kind"] in only:
             c["id"] = f"{c['kind']}:{len(cases)}"
             cases.append(c)
-    reps = 2 if tier_quick else 12
+    reps = 2 if tier_quick else 30
     for r in range(reps):
         trig = (r % 2 == 1)
         # Stokes: disc / ellipse, flat or paraboloid cap, boundary = circle / ellipse
@@ -477,6 +485,12 @@ def gen_cases(rng, tier_quick, only=None):
         surf = [U, V] + ([zc] if zc is not None else [])
         add({"kind": "stokes", "field": [S(e) for e in rand_field(rng, 3, trig)], "surface": [S(e) for e in surf],
             "limits": [[S(x0), S(x1)], [S(y0), S(y1)]], "boundary": rect_boundary(x0, x1, y0, y1, zc)})
+        # Stokes with the base scalars as parameters (non-parametrised graph surface z = h(x, y))
+        x0, x1, y0, y1 = rng.choice([(0, 1, 0, 2), (-1, 1, 0, 1)])
+        zc = rng.choice([U * V, U + V**2])
+        add({"kind": "stokes", "params": "base_scalars", "field": [S(e) for e in rand_field(rng, 3, trig)],
+            "surface": ["x", "y", S(zc.subs({U: X, V: Y}, simultaneous=True))], "limits": [[S(x0), S(x1)], [S(y0), S(y1)]],
+            "boundary": rect_boundary(x0, x1, y0, y1, zc)})
         # Green: rectangle (four segments) vs non-parametrised region, any field
         x0, x1, y0, y1 = rng.choice([(0, 1, 0, 2), (-1, 1, 0, 1), (0, 2, -1, 1)])
         add({"kind": "green", "field": [S(e) for e in rand_field(rng, 2, trig)], "boundary": rect_boundary(x0, x1, y0, y1),
@@ -539,6 +553,18 @@ def div_not_composed_probe(rng):
         out.append({"kind": "green", "id": f"green:param-nonconst-div:{f}", "field": f, "boundary": circle_boundary(1, 1),
             "region": {"type": "parametrised", "surface": [S(U * cos(V)), S(U * sin(V))], "limits": [["0", "1"], ["0", S(2 * pi)]]}})
     return out
+
+
+def sequential_subs_probe():
+    """Surface written through the base scalars in exchanged order, X = y, Y = x (a reflected rectangle):
+    VectorField.from_vector(...).apply substitutes the base scalars one after the other."""
+    def seg(xe, ye, t0, t1):
+        return {"trajectory": [S(xe), S(ye)], "limits": [S(t0), S(t1)]}
+    zero = sympy.Integer(0)
+    boundary = [seg(zero, T, 0, 1), seg(T, sympy.Integer(1), 0, 2), seg(sympy.Integer(2), T, 1, 0), seg(T, zero, 2, 0)]
+    return [{"kind": "stokes", "params": "base_scalars", "id": f"stokes:swapped-base-scalars:{f}", "field": f,
+        "surface": ["y", "x"], "limits": [["0", "1"], ["0", "2"]], "boundary": boundary}
+        for f in (["0", "x**2", "0"], ["a*y**2", "x*y", "0"])]
 
 
 # ---------------------------------------------------------------------------------------------
@@ -612,6 +638,17 @@ def run(ctx):
     if cases:
         ctx.sample({"e2e_case": cases[0]})
     ctx.log(f"end-to-end: {n_ok}/{len(cases)} agree")
+
+    # 2b. probe: surface given through the base scalars in exchanged order
+    for c in sequential_subs_probe():
+        try:
+            okc, detail = run_case(c)
+        except Exception as e:  # pylint: disable=broad-except
+            okc, detail = False, {"exception": f"{type(e).__name__}: {e}"}
+        ctx.evaluated(1, 1)
+        if not okc:
+            report_case(ctx, c, detail, key=KNOWN_KEY_SUBS)
+            break
 
     # 3. decide failed / untranslatable ties
     failed = [(lm.name, lm.item, res[lm.name], lm.statement) for lm in lemmas if res.get(lm.name) != "ok"]
